@@ -743,15 +743,30 @@ func vfDeadlineTolerance(eflag uint16) int64 {
 	return 2
 }
 
+// vfLoaderSkips mirrors the age filter of Aof.LoadAofFile: a record whose own deadline has passed is not replayed
+func vfLoaderSkips(r *vfLogRec, now int64) bool {
+	switch {
+	case r.ExpriedFlag&protocol.EXPRIED_FLAG_MILLISECOND_TIME != 0:
+		return int64(r.CommandTime+uint64(r.ExpriedTime)/1000) <= now
+	case r.ExpriedFlag&protocol.EXPRIED_FLAG_MINUTE_TIME != 0:
+		return int64(r.CommandTime+uint64(r.ExpriedTime)*60) <= now
+	case r.ExpriedFlag&protocol.EXPRIED_FLAG_UNLIMITED_EXPRIED_TIME == 0:
+		return r.ExpriedTime > 0 && int64(r.CommandTime+uint64(r.ExpriedTime)) <= now
+	}
+	return false
+}
+
 // replayOrderRefuses: second manifestation of the open finding "the loader re-admits the holds of the log one
 // by one through the normal admission rule": the records are in persistence order, not in grant order, and the
 // UNLOCK record of a holder that has left comes after the LOCK records of holders that joined while it was
 // there. When the LOCK record of this hold is replayed, do the records before it leave more holds on the key
 // than the hold's own Count admits?
-func (p *vfE4Phase) replayOrderRefuses(db uint8, key, lockId [16]byte) bool {
+func (p *vfE4Phase) replayOrderRefuses(db uint8, key, lockId [16]byte, now int64) bool {
 	depth := map[[16]byte]int{}
+	count := map[[16]byte]uint16{}
+	var order [][16]byte // holders in the order the replay admits them (the first one alive is "the oldest holder")
 	for _, r := range p.logRecs {
-		if r.Db != db || r.Key != key {
+		if r.Db != db || r.Key != key || vfLoaderSkips(&r, now) {
 			continue
 		}
 		if r.Cmd == protocol.COMMAND_LOCK {
@@ -762,9 +777,24 @@ func (p *vfE4Phase) replayOrderRefuses(db uint8, key, lockId [16]byte) bool {
 						others += d
 					}
 				}
+				// the admission rule: the holds already outstanding number at most the request's Count and at
+				// most the Count of the key's oldest outstanding holder - which, in replay order, may be another
+				// hold than in the history (one that was granted later, or one that has left since)
 				if r.Count < 0xffff && others > int(r.Count) {
 					return true
 				}
+				for _, id := range order {
+					if depth[id] > 0 {
+						if c := count[id]; c < 0xffff && others > int(c) {
+							return true
+						}
+						break
+					}
+				}
+			}
+			if depth[r.LockId] == 0 {
+				order = append(order, r.LockId)
+				count[r.LockId] = r.Count
 			}
 			depth[r.LockId]++
 		} else if r.Cmd == protocol.COMMAND_UNLOCK {
@@ -938,7 +968,7 @@ func vfCompareRestart(p *vfE4Phase, before *vfSnapshot, exps []*vfE4Expect, rest
 				}
 				if rs := relockSig(ex.Kid.Db, ex.KeyBytes); rs != "" {
 					sig = rs
-				} else if depth-1 > cmin || p.replayOrderRefuses(ex.Kid.Db, ex.KeyBytes, ex.LockId) {
+				} else if depth-1 > cmin || p.replayOrderRefuses(ex.Kid.Db, ex.KeyBytes, ex.LockId, restored.Now) {
 					// the key is held by more holders than the smallest Count among them
 					// admits (legitimate once an older holder with a larger Count has left):
 					// the loader re-admits the holds one by one through the normal rule
@@ -1203,6 +1233,9 @@ type vfLogRec struct {
 	Flag    uint8
 	Count   uint16
 	Rcount  uint8
+	CommandTime uint64
+	ExpriedTime uint16
+	ExpriedFlag uint16
 	AofIndex, AofOffset uint32
 }
 
@@ -1225,7 +1258,7 @@ func vfReadLogRecords(dir string) []vfLogRec {
 			l := NewAofLock()
 			copy(l.buf, b[off:off+64])
 			_ = l.Decode()
-			out = append(out, vfLogRec{File: n, Cmd: l.CommandType, Db: l.DbId, Key: l.LockKey, LockId: l.LockId, AofFlag: l.AofFlag, Flag: l.Flag, Count: l.Count, Rcount: l.Rcount, AofIndex: l.AofIndex, AofOffset: l.AofOffset})
+			out = append(out, vfLogRec{File: n, Cmd: l.CommandType, Db: l.DbId, Key: l.LockKey, LockId: l.LockId, AofFlag: l.AofFlag, Flag: l.Flag, Count: l.Count, Rcount: l.Rcount, CommandTime: l.CommandTime, ExpriedTime: l.ExpriedTime, ExpriedFlag: l.ExpriedFlag, AofIndex: l.AofIndex, AofOffset: l.AofOffset})
 		}
 	}
 	return out
